@@ -368,6 +368,8 @@ def run(ctx):
     stage("verdicts")
     nglue = glue(ctx, exe, drv, thorough)
     stage("glue")
+    ngiant = giant(ctx, exe)
+    stage("giant")
     classes = sorted(k[len("kind:corrupt:"):] for k in ctx.histogram if k.startswith("kind:corrupt:"))
     missing = [c for c in wg.CORRUPTION_CLASSES if c not in classes]
     ctx.extra["corruption_classes"] = {"applied": {c: ctx.histogram["kind:corrupt:" + c] for c in classes}, "never applied in this run": missing}
@@ -383,8 +385,10 @@ def run(ctx):
                 "one array/dict, nesting at the limits, valid and with the big length field off by 1 / 8 / beyond 2^26. Stream 5 (glue, %d bodies): "
                 "validate(), unmarshall_all, unmarshal_body on bodies from from_parts: valid, with trailing bytes, truncated, corrupted, signature with "
                 "one type more or less, each at buf_offset 0 / 8 / 16 / 112 / 4096 (and 3 / 4: normalised); one body in four has `h` leaves and a "
-                "descriptor list that covers all / some / none of their indices. non-trivial = the type has a container or a text leaf, or the input is a corruption; distinct = distinct case lines"
-                % (per_type, ncat, len(classes), nglue))
+                "descriptor list that covers all / some / none of their indices. Stream 6 (giant, %d cases): ay / at / as with exactly 2^26 bytes of "
+                "content (valid), the smallest content above (invalid) and 16..50 MiB, made inside the harness, through all three decoders in both "
+                "byte orders. non-trivial = the type has a container or a text leaf, or the input is a corruption; distinct = distinct case lines"
+                % (per_type, ncat, len(classes), nglue, ngiant))
 
 
 big_tokens = {}        # index of a big case -> the tokens of the value its bytes were made from (to estimate the model's cost)
@@ -551,6 +555,46 @@ def glue(ctx, exe, drv, thorough):
             ctx.disagreements_checked += 1
             ctx.tie_broken("correspondence: decoder models and implementation differ (glue stream)",
                            "%s\nimpl: %s\nmodel: %s" % (lines[5 * ci + 4], out[5 * ci + 3:5 * ci + 5], mout[5 * ci + 3:5 * ci + 5]))
+    return len(cases)
+
+
+def giant(ctx, exe):
+    """Arrays at the protocol maximum, for every decoder: an encoding with exactly 2^26 bytes of content is valid (accepted, all of
+    it consumed, the value is the described one), the smallest content above is not, 16..50 MiB in between. The input is made inside
+    the harness by a plain encoder (XD, harness/src/bin/wire.rs giant()); its length and CRC-32 are compared with the plain encoder
+    wiregen.giant_spec, so both readings of the specification agree on the input. No extracted function runs on 64 MiB (model-skipped)."""
+    r = ctx.sub_rng("c03-giant")
+    cases = wg.giant_lines(r, "XD")
+    ok, out, err = wg.run_each(exe, [c[4] for c in cases], robust=True, chunk=2)
+    if not ok:
+        ctx.tie_broken("wire harness crashed (giant stream)", err)
+        return 0
+    names = {"vr": "validate_raw", "ut": "typed decoder", "up": "Param decoder"}
+    for (cls, shape, be, api, line), o in zip(cases, out):
+        content, n, crc = wg.giant_spec(shape, be)
+        parts = o.split(" ")
+        f = dict(p.split("=", 1) for p in parts if "=" in p)
+        ctx.case(("giant", line), nontrivial=True, sample={"case": line, "impl": o[:160]} if shape[0] == "as" and be and api == "up" else None)
+        ctx.count("giant:%s:%s" % (cls, names[api]))
+        ctx.count("big:model-skipped:" + {"vr": "VR", "ut": "UT", "up": "UP"}[api])
+        ctx.count("bo:" + ("be" if be else "le"))
+        if parts[0] not in ("ok", "err"):
+            ctx.disagreements_checked += 1
+            ctx.violation("%s did not return a value or an error (%s)" % (names[api], o[:60]), {"lines": [line], "impl": [o[:300]], "model": ["not run"], "kind": "giant:" + cls})
+            continue
+        if (f.get("in"), f.get("inlen")) != (crc, str(n)):
+            ctx.tie_broken("the harness's plain encoder and wiregen.giant_spec differ on a giant input", "%s\nharness: %s\npython: inlen=%d in=%s" % (line, o[:200], n, crc))
+            continue
+        why = None
+        if content <= wg.MAX_ARRAY:
+            if parts[0] != "ok" or int(parts[1]) != n or f.get("same") != "true":
+                why = "%s rejects a valid encoding, reports the wrong length or returns a different value" % names[api]
+        elif parts[0] == "ok":
+            why = "%s accepted an array of more than 2^26 bytes" % names[api]
+        if why:
+            ctx.disagreements_checked += 1
+            ctx.violation(why, {"lines": [line], "impl": [o[:300]], "model": ["not run"], "kind": "giant:" + cls,
+                                "specification": "content %d bytes (maximum %d), encoding %d bytes" % (content, wg.MAX_ARRAY, n)})
     return len(cases)
 
 
